@@ -193,6 +193,8 @@ static CTypeDescrObject *_ffi_type(FFIObject *ffi, PyObject *arg,
         if (x == NULL) {
             const char *input_text = PyUnicode_AsUTF8(arg);
             struct _cffi_parse_info_s info;
+            if (input_text == NULL)
+                return NULL;      /* e.g. lone surrogates */
             info.ctx = &ffi->types_builder.ctx;
             info.output_size = FFI_COMPLEXITY_OUTPUT;
             info.output = PyMem_Malloc(FFI_COMPLEXITY_OUTPUT * sizeof(_cffi_opcode_t));
